@@ -135,29 +135,26 @@ pub fn judge(h: &History, st: &mut Stats) -> Verdict {
             return Ok(());
         }
     };
-    // expected bytes: fixed prefix, (length field), constructor address block, then each payload's own encoding
+    // expected bytes: fixed prefix, (length field), constructor address block, then each payload's reference encoding
     let (vc, afp, addr) = bld::ctor_parts(&h.ctor);
     let mut expected = bld::fixed_prefix(vc, afp);
     expected.extend_from_slice(&[0, 0]);
-    if addr != RefAddr2::Unspec {
-        match imp::mk_addr2(&addr).to_bytes() {
-            Ok(b) => expected.extend_from_slice(&b),
-            Err(_) => return Ok(()),
-        }
-    }
+    expected.extend_from_slice(&enc::enc_addr(&addr));
     let mut kinds = std::collections::HashSet::new();
     let mut writes = 0;
+    let mut explicit: Option<u16> = None;
     for op in &h.ops {
         for v in bld::op_values(op) {
-            let data = bld::content(&v);
-            match bld::to_bytes_val(&v, &data) {
-                Ok(b) => expected.extend_from_slice(&b),
-                Err(_) => return Ok(()),
+            match bld::ref_encoding(&v) {
+                Some(b) => expected.extend_from_slice(&b),
+                None => return Ok(()), // an oversize value was accepted: C09 reports that
             }
             kinds.insert(std::mem::discriminant(&v));
         }
-        if !matches!(op, Op::Reserve(_) | Op::SetLength(_)) {
-            writes += 1;
+        match op {
+            Op::SetLength(x) => explicit = *x,
+            Op::Reserve(_) => {}
+            _ => writes += 1,
         }
     }
     let has_batch = h.ops.iter().any(|o| matches!(o, Op::Payloads { vs, .. } if vs.len() >= 2));
@@ -183,6 +180,18 @@ pub fn judge(h: &History, st: &mut Stats) -> Verdict {
             entry,
             format!("signature, control bytes, length, constructor addresses, then each payload's encoding in call order ({} bytes)", expected.len()),
             format!("{} bytes; {}", built.len(), first_diff(built, &expected)),
+        ));
+    }
+    // the length field itself: the explicit length in force, else the number of bytes after the fixed part
+    let field = ((built[14] as usize) << 8) | built[15] as usize;
+    let want_field = explicit.map(|x| x as usize).unwrap_or(built.len() - 16);
+    if field != want_field {
+        return Err(Fail::new(
+            "length-field",
+            shape_h(h),
+            entry,
+            format!("length field {} ({})", want_field, if explicit.is_some() { "the explicit length in force" } else { "bytes after the fixed part" }),
+            format!("length field {}", field),
         ));
     }
     for (name, twin) in twins(h) {
@@ -214,11 +223,11 @@ pub fn gen_case(t: &mut Tape) -> History {
 
 pub fn run(r: &mut Runner) -> &'static str {
     r.rule = "histories as for C09 (big values rarer). oracle: expected bytes = signature, the two control bytes (family nibble from the constructor's address value), [length field ignored: C09], \
-              constructor address block, then each payload's standalone encoding (value.to_bytes(), itself pinned by C20/C07) in call order - compared with every byte of the output; plus \
+              constructor address block, then each payload's wire encoding by the reference encoders R-ENC, in call order - compared with every byte of the output; the length field must be the explicit length in force or the byte count; plus \
               metamorphic twins run on the same history (drop / add reserve_capacity, unbatch / batch, swap TLV struct <-> tuple <-> write_tlv, with_addresses <-> new + write_payload(addresses), \
               P <-> &P) that must build identical bytes. non-trivial = at least two writes of different kinds, or a batch of >= 2, or a reserve after the first write; distinct by SipHash"
         .into();
-    r.assumptions.push("per-payload encodings are taken from the library's own to_bytes(); C20 and C07 pin those to the wire format".into());
+    r.assumptions.push("trusted: reference encoders in harness/src/oracle/enc.rs (shared with C20 and C07); a partly consumed TypeLengthValues iterator still stands for its whole section".into());
     let n = r.n(120_000, 3_000_000);
     r.random("c10.histories", n, 260, &gen_case, &judge);
     "exploration"
